@@ -200,7 +200,7 @@ def run(ctx, replay=None):
         seen.add((tid_, clause))
         info = meta.get(tid_, {})
         lam = info.get("lam")
-        fn = "power_iteration_nonhermitian" if clause in ("RealEigenvalueForHermitian", "ShapeOfVector") else "power_iteration"
+        fn = "power_iteration_nonhermitian" if clause in ("RealEigenvalueForHermitian", "ShapeOfVector", "UnitNormAdjointVariant") else "power_iteration"
         cls = "arbitrary-input" if lam is None else ("negative-dominant" if lam and max(lam, key=abs) < 0 else "positive-dominant")
         ctx.fail(fn, clause, cls, dict(info, events=[e for e in events if e["tid"] == tid_ and e["ev"] != "Iter"]))
     ctx.drift = sorted(set(ctx.drift))[:10]
